@@ -1068,7 +1068,11 @@ def check_c03(run):
                             "GOMP runtime with each listed schedule (immediate; fully deferred fifo, lifo, random, priority-inverted, with stack scrubbing; thread counts 1-16; "
                             "round-robin / random / last worker ids) and compared bag by bag with the sequential executor; the recorded task graph (declared dependences mapped to "
                             "group buffers, actual accesses from the kernel callbacks) must satisfy Covered; a sample of graphs is explored by TLC (TaskRuntime.tla: NoRace, AllDone, "
-                            "Covered => NoRace over all interleavings) and TLC's schedules are replayed through the mock runtime; an AddressSanitizer build repeats a subset")
+                            "Covered => NoRace over all interleavings) and TLC's schedules are replayed through the mock runtime; an AddressSanitizer build repeats a subset; "
+                            "design level: spec/TaskExec.tla models the submission program (one task per wrapper call, declared read / commutative-write handles) and TLC checks every order the "
+                            "declarations allow on every tree of small pools (each task an enabled batch, closed-form end state, DeclaredCoversActual, ConflictsOrdered, termination), its model graph being "
+                            "compared with the graphs recorded from the OpenMP, Specx and StarPU executors (coverage.taskexec_model_vs_recorded_graphs); the shipped rotation / uniform kernels through the "
+                            "OpenMP executor under deferred schedules equal the sequential executor to rounding")
     run.assumptions += FMM_ASSUME[:1] + ["the mock runtime implements the OpenMP dependence rules (its run orders are validated by TLC against TaskRuntime.tla); schedules are executed one task at a time, which is sound for result equality only together with NoRace/Covered on actual accesses",
                                          "GCC 12 defines _OPENMP=201511, so `commute` expands to inout; the Specx and StarPU executors run through API-compatible mocks of Legacy/SpRuntime.hpp and starpu.h (commutative write = mutual exclusion) feeding the same scheduler core; CUDA variants are not covered"]
 
